@@ -18,8 +18,10 @@ it read (`invalidate_complete`); and the number of KEYS: a store that is only ev
 of a finite set K (by `written_keys_determined`: the URL keys and variant ids of the alphabet) never
 holds more than |K| keys, for every sequence of writes and deletes (`store_keys_never_exceed`). What
 stays outside the theorems: that the origin's Vary values come from a finite set is part of "fixed
-finite alphabet"; orphaned entries are counted by the bound but not excluded (the monitor looks for
-them, and checks both bounds on the implementation over long repetitions of a request alphabet).
+finite alphabet". Orphaned entries: a store removes the response whose reference it overwrites once nothing
+names it (`replaced_response_is_removed`), and the monitor checks on the implementation that at rest every
+entry key is named by its index (sequential, fault-free histories), besides both bounds over long
+repetitions of a request alphabet.
 -/
 namespace Httpcache.C19
 open Httpcache
@@ -63,14 +65,24 @@ theorem written_keys_determined (cfg : Cfg) (reqH : Header) (r : Resp) (b : Bool
         rw [hm.1]; rfl
       · cases h1 with
         | setRefs ok2 h2 =>
-          cases h2
-          refine ⟨?_, ?_⟩
-          · intro id e ok' hm
-            simp only [List.mem_cons, Step.setEntry.injEq, reduceCtorEq, List.not_mem_nil, or_false] at hm
-            rw [hm.1]; rfl
-          · intro k l ok' hm
-            simp only [List.mem_cons, reduceCtorEq, Step.setRefs.injEq, List.not_mem_nil, or_false, false_or] at hm
-            exact hm.1
+          dsimp only at h2
+          rcases dropReplaced_run _ _ _ _ _ _ _ h2 with hk | ⟨old, tr', e, hk, _⟩
+          · cases hk
+            refine ⟨?_, ?_⟩
+            · intro id e ok' hm
+              simp only [List.mem_cons, Step.setEntry.injEq, reduceCtorEq, List.not_mem_nil, or_false] at hm
+              rw [hm.1]; rfl
+            · intro k l ok' hm
+              simp only [List.mem_cons, reduceCtorEq, Step.setRefs.injEq, List.not_mem_nil, or_false, false_or] at hm
+              exact hm.1
+          · subst e; cases hk
+            refine ⟨?_, ?_⟩
+            · intro id e ok' hm
+              simp only [List.mem_cons, Step.setEntry.injEq, reduceCtorEq, List.not_mem_nil, or_false] at hm
+              rw [hm.1]; rfl
+            · intro k l ok' hm
+              simp only [List.mem_cons, reduceCtorEq, Step.setRefs.injEq, List.not_mem_nil, or_false, false_or] at hm
+              exact hm.1
 
 /-- after a store, the only position of the index that holds the new reference's variant is the
     one it was placed at: identical references never accumulate ('Vary: *' resources, repeated
@@ -89,6 +101,19 @@ theorem invalidate_complete (cfg : Cfg) (req : Req) (respH : Header) (refs : Lis
     (tr : List Step) (r : Result) (h : Run (invalidateCache cfg req respH refs key k) tr r) :
     Step.delete key ∈ tr ∧ ∀ ref ∈ refs, Step.delete ref.id ∈ tr :=
   invalidateCache_deletes cfg req respH refs key k tr r h
+
+/-- StoreResponse leaves no stored response behind: when the entry write and the index write succeed, every
+    response the old index named is named by the new index or deleted in the same call. The reference a store
+    overwrites may name ANOTHER stored response (the new reply varies on other fields, so its identifier
+    differs); on the pinned tree that response stayed in the store, named by nothing — never read, replaced or
+    invalidated again — one for every such replacement (one URI, one request header combination, an origin
+    that keeps changing its Vary field: the number of keys grew with the number of requests). -/
+theorem replaced_response_is_removed (cfg : Cfg) (reqH : Header) (r : Resp) (b : Bool) (key : Str)
+    (refs : List Ref) (t1 t2 : Int) (ri : Option Nat) (tr : List Step) (res : Result)
+    (h : Run (storeResponse cfg reqH r b key refs t1 t2 ri (fun r => .ret (.resp r))) tr res)
+    (k' : Str) (rs : List Ref) (hR : Step.setRefs k' rs true ∈ tr) :
+    ∀ x ∈ refs, x.id ≠ [] → (∃ y ∈ rs, y.id = x.id) ∨ Step.delete x.id ∈ tr :=
+  store_leaves_no_orphan cfg reqH r b key refs t1 t2 ri tr res h k' rs hR
 
 /-- INVARIANT of every index: no two references describe the same variant (id, Vary value, recorded
     selecting values); StoreResponse preserves it whatever position it replaces ('Vary: *' resources,
